@@ -11,7 +11,7 @@ Typestate ts = (mods, committed, lost, mods_out):
 """
 from .facts import Broken, strip, const
 from .interp import Interp, State, av_const, NONZERO
-from .sqlmodel import SqlModel, tx_event, classify, literal_text
+from .sqlmodel import SqlModel, tx_event, tx_literal, classify, literal_text
 
 # Frozen from DESIGN.md A.5 — functions that by contract do not leave the depth as they found it.
 # name -> (entry depth, {return class -> exit depth})
@@ -77,8 +77,13 @@ class TxInterp(Interp):
         callee = n.get("callee")
         mods, committed, lost, mo = st.ts
         ev = tx_event(n)
+        lit = tx_literal(n) if ev else None
         if ev == "open":
             self._note("open", n, len(mods))
+            if lit == "begin" and mods:
+                # SQLite refuses BEGIN while a transaction is open: only the failing outcome exists
+                self.anomalies.append(("begin-inside-transaction", n.get("l"), st))
+                return [(st, NONZERO)]
             ok = st.with_ts((mods + (False,), committed, lost, mo))
             return [(ok, av_const(0)), (st, NONZERO)]
         if ev == "commit":
@@ -86,6 +91,10 @@ class TxInterp(Interp):
             if not mods:
                 self.anomalies.append(("commit-without-open", n.get("l"), st))
                 return [(st, None)]
+            if lit == "commit":
+                # COMMIT ends the whole transaction: every open level, inherited ones included
+                ok = st.with_ts(((), True, lost, mo))
+                return [(ok, av_const(0)), (st, NONZERO)]
             top = mods[-1]
             rest = mods[:-1]
             if rest and top:
@@ -96,8 +105,13 @@ class TxInterp(Interp):
             self._note("rollback", n, len(mods))
             if not mods:
                 return [(st, None)]     # idempotent close
+            if lit == "rollback":
+                # ROLLBACK (without TO) ends the whole transaction: every open level, inherited ones included
+                return [(st.with_ts(((), committed, lost or any(mods), mo)), None)]
             s = st.with_ts((mods[:-1], committed, lost or mods[-1], mo))
             return [(s, None)]
+        if callee == "sqlite3_get_autocommit" and mods:
+            return [(st, av_const(0))]      # a transaction is open: not in autocommit mode
         if callee == "sqlite3_exec":
             t = literal_text(n["args"][1]) if len(n.get("args", [])) > 1 else None
             c = classify(t) if t is not None else "modify"
@@ -123,7 +137,7 @@ class TxInterp(Interp):
             if not mods:
                 self.anomalies.append(("iterator-close-without-open", n.get("l"), st))
                 return [(st, None)]
-            return [(st.with_ts((mods[:-1], committed, lost, mo)), None)]
+            return [(st.with_ts(((), committed, lost, mo)), None)]     # COMMIT / ROLLBACK: the whole transaction ends
         if callee in TX_REQUIRED_HELPERS:
             self.helper_calls.append((callee, n.get("l"), len(mods)))
         sm = self.summaries.get(callee)
